@@ -641,6 +641,123 @@ def sub_same_effect(case):
     return "same_effect"
 
 
+
+_ENTRY_SNIPPET = "import sys; sys.argv = %r; from evo import entry_points; entry_points.%s()"
+
+
+def _entry_run(app, argv, home, cwd):
+    """the real console entry point in a fresh interpreter (import order and module-level defaults as in a user's run)"""
+    import subprocess, sys
+    env = {"HOME": home, "PATH": os.environ.get("PATH", ""), "PYTHONPATH": os.environ.get("VF_REPO", "/repo"), "PYTHONNOUSERSITE": "1",
+           "PYTHONDONTWRITEBYTECODE": "1", "PYTHONHASHSEED": "0", "MPLBACKEND": "Agg", "OPENBLAS_NUM_THREADS": "1", "OMP_NUM_THREADS": "1",
+           "PYTHONWARNINGS": "ignore"}
+    return subprocess.run([sys.executable, "-B", "-s", "-c", _ENTRY_SNIPPET % (["evo_" + app] + argv, app)], env=env, cwd=cwd,
+                          stdout=subprocess.PIPE, stderr=subprocess.PIPE, timeout=300)
+
+
+def _settings_text(overrides):
+    dd = copy.deepcopy(DEFAULT_SETTINGS_DICT)
+    dd.update(overrides)
+    return json.dumps(dd, indent=4, sort_keys=True)
+
+
+def sub_cfg_override(case):
+    """a package setting in the -c file has, for that run, the effect of the same value in settings.json - through the real entry
+    point in a fresh process - and settings.json itself stays as it was"""
+    from evo.core import result as evo_result
+    from evo.tools import file_interface
+    app = case["app"]
+    over = {k: v for k, v in case["settings"].items() if v is not None}
+    if app != "res":
+        over.pop("table_export_data", None)
+    if app == "ape":
+        over = {k: v for k, v in over.items() if k == "save_traj_in_zip"}
+    else:
+        over.pop("save_traj_in_zip", None)
+    if not over:
+        return "empty"
+    d = tempfile.mkdtemp(prefix="c18o_", dir=os.getcwd())
+    n = case["n"]
+    lines = ["%r %r %r %r 0 0 0 1" % (float(i) * 0.5, float(i) * case["step"], float(i % 3), 0.25 * i) for i in range(n)]
+    for name in ("a.tum", "b.tum"):
+        with open(os.path.join(d, name), "w") as f:
+            f.write("\n".join(lines) + "\n")
+            lines = lines[:-1] + ["%r 9.5 1.0 2.0 0 0 0 1" % (float(n) * 0.5)]
+    if app == "res":
+        for i, name in enumerate(("r1.zip", "r2.zip")):
+            r = evo_result.Result()
+            r.add_info({"title": "APE w.r.t. translation part (m)", "est_name": "est%d" % i, "ref_name": "ref", "label": "APE (m)"})
+            r.add_stats({"rmse": 1.0 + i, "mean": 0.5 * (i + 1), "max": 3.0 + i, "min": 0.25, "median": 0.75, "std": 0.125, "sse": 10.0 + i})
+            r.add_np_array("error_array", np.arange(n, dtype=float) * (i + 1))
+            r.add_np_array("timestamps", np.arange(n, dtype=float))
+            file_interface.save_res_file(os.path.join(d, name), r)
+    outs = {}
+    for mode in ("cfg", "file"):
+        home = os.path.join(d, "home_" + mode)
+        os.makedirs(os.path.join(home, ".evo"))
+        text = _settings_text(over if mode == "file" else {})
+        spath = os.path.join(home, ".evo", "settings.json")
+        with open(spath, "w") as f:
+            f.write(text)
+        out = os.path.join(d, "out_" + mode + (".zip" if app == "ape" else ".tbl"))
+        if app == "traj":
+            argv = ["tum", "a.tum", "b.tum", "--save_table", out, "--no_warnings"]
+        elif app == "res":
+            argv = ["r1.zip", "r2.zip", "--save_table", out, "--no_warnings"]
+        else:
+            argv = ["tum", "a.tum", "b.tum", "--save_results", out, "--no_warnings"]
+        if mode == "cfg":
+            cfg = os.path.join(d, "c.json")
+            with open(cfg, "w") as f:
+                json.dump(over, f)
+            argv += ["-c", cfg]
+        r = _entry_run(app, argv, home, d)
+        if r.returncode != 0 or not os.path.exists(out):
+            raise Mismatch("evo_%s %s (settings %s given through %s) exits %d without the output: %s" % (
+                app, argv, over, "the -c file" if mode == "cfg" else "settings.json", r.returncode, r.stderr.decode(errors="replace")[-300:]),
+                observed="run_failed_" + mode)
+        if open(spath).read() != text:
+            raise Mismatch("evo_%s %s rewrote settings.json (the -c override is for that run only)" % (app, argv), observed="settings_file_changed")
+        if app == "ape":
+            import zipfile
+            with zipfile.ZipFile(out) as z:
+                outs[mode] = sorted(z.namelist())
+        else:
+            outs[mode] = open(out, "rb").read()
+    if outs["cfg"] != outs["file"]:
+        raise Mismatch("evo_%s with %s in the -c file writes another %s than with the same values in settings.json: %r vs %r" % (
+            app, over, "archive member list" if app == "ape" else "table", outs["cfg"][:160], outs["file"][:160]), observed="cfg_not_effective", app=app,
+            keys=sorted(over))
+    fmt = over.get("table_export_format")
+    if app != "ape" and fmt == "json":
+        try:
+            json.loads(outs["cfg"].decode())
+        except ValueError:
+            raise Mismatch("evo_%s with table_export_format=json in the -c file writes a table that is not JSON: %r" % (app, outs["cfg"][:120]),
+                           observed="format_ignored", app=app)
+    if app != "ape" and fmt == "html" and not outs["cfg"].lstrip().startswith(b"<table"):
+        raise Mismatch("evo_%s with table_export_format=html in the -c file writes a table that is not HTML: %r" % (app, outs["cfg"][:120]),
+                       observed="format_ignored", app=app)
+    return "%s/%s" % (app, "+".join(sorted(over)))
+
+
+st_override = st.fixed_dictionaries({
+    "app": st.sampled_from(["traj", "res", "res", "ape"]), "n": st.integers(3, 9), "step": st.sampled_from([0.5, 1.0, 2.25]),
+    "settings": st.fixed_dictionaries({
+        "table_export_format": st.sampled_from([None, "csv", "json", "html", "string"]),
+        "table_export_transpose": st.sampled_from([None, True, False]),
+        "table_export_data": st.sampled_from([None, "stats", "info", "error_array"]),
+        "save_traj_in_zip": st.sampled_from([None, True, False])})})
+
+
+def _nt_override(c):
+    s = c["settings"]
+    if c["app"] == "ape":
+        return s["save_traj_in_zip"] is True
+    return (s["table_export_format"] not in (None, DEFAULT_SETTINGS_DICT["table_export_format"])
+            or s["table_export_transpose"] not in (None, DEFAULT_SETTINGS_DICT["table_export_transpose"])
+            or (c["app"] == "res" and s["table_export_data"] not in (None, DEFAULT_SETTINGS_DICT["table_export_data"])))
+
 st_pick = st.fixed_dictionaries({
     "idx": st.integers(0, 60), "i": st.integers(0, 10), "int": st.integers(-3, 600),
     "f1": st.sampled_from(["0.5", "-0.5", "2", "-3", "1e-3", "-125.5", "0.0", "10.0", "3.75", "-.5"]), "f2": st.sampled_from(["5.0", "-1.5", "20", "0.25"]),
@@ -663,4 +780,5 @@ SUBS = [
     Sub("generate", sub_generate, st_gen, 1500, 60000, nontrivial=_nt_gen),
     Sub("priority", sub_priority, st_prio, 20, 200, shards_quick=1, shards_thorough=2),
     Sub("same_effect", sub_same_effect, st_effect, 150, 5000, nontrivial=lambda c: True, shards_quick=8),
+    Sub("cfg_override", sub_cfg_override, st_override, 48, 1200, nontrivial=_nt_override, shards_quick=16, shards_thorough=16),
 ]
